@@ -79,6 +79,193 @@ theorem renderString_escItems (s : Bytes) : renderString (s.map escItem) = escap
   simp [renderString, escapeString, (escItems_spec s).1]
 
 
+/-! ### strictness of the strings the serializer writes (F2) -/
+
+/-- per byte: a raw item is the byte itself, `≥ 0x20`, not `"`/`\`; bytes `≥ 0x80` are always raw -/
+def escStrictCheck (b : UInt8) : Bool :=
+  (match escItem b with
+   | .raw c => c == b && decide (32 ≤ b.toNat) && b != 0x22 && b != 0x5C
+   | _ => true) &&
+  (decide (b.toNat < 128) || (match escItem b with | .raw c => c == b | _ => false))
+
+set_option maxRecDepth 100000 in
+theorem escStrictCheck_table : ∀ n, n < 256 → escStrictCheck (b8 n) = true := by decide +kernel
+
+theorem escItem_raw {b c : UInt8} (h : escItem b = .raw c) : c = b ∧ 32 ≤ b.toNat ∧ b ≠ 0x22 ∧ b ≠ 0x5C := by
+  have ht := escStrictCheck_table b.toNat b.toNat_lt
+  rw [b8_of_toNat] at ht
+  simp only [escStrictCheck, h, Bool.and_eq_true, beq_iff_eq, decide_eq_true_eq, bne_iff_ne, ne_eq] at ht
+  exact ⟨ht.1.1.1.1, ht.1.1.1.2, ht.1.1.2, ht.1.2⟩
+
+theorem escItem_high {b : UInt8} (h : 128 ≤ b.toNat) : escItem b = .raw b := by
+  have ht := escStrictCheck_table b.toNat b.toNat_lt
+  rw [b8_of_toNat] at ht
+  simp only [escStrictCheck, Bool.and_eq_true, Bool.or_eq_true, decide_eq_true_eq] at ht
+  rcases ht.2 with h' | h'
+  · omega
+  · cases he : escItem b with
+    | raw c => rw [he] at h'; simp only [beq_iff_eq] at h'; rw [h']
+    | esc e => rw [he] at h'; cases h'
+    | u a1 a2 a3 a4 => rw [he] at h'; cases h'
+
+theorem utf8Encode_ascii (c : Char) (h : c.val.toNat < 128) : String.utf8EncodeChar c = [UInt8.ofNat c.val.toNat] := by
+  unfold String.utf8EncodeChar
+  simp only
+  rw [if_pos (by omega)]
+
+theorem utf8Encode_high (c : Char) (h : 128 ≤ c.val.toNat) : ∀ b ∈ String.utf8EncodeChar c, 128 ≤ b.toNat := by
+  unfold String.utf8EncodeChar
+  simp only
+  intro b hb
+  split at hb
+  · omega
+  · split at hb
+    · simp only [List.mem_cons, List.not_mem_nil, or_false] at hb
+      rcases hb with rfl | rfl <;> simp only [UInt8.toNat_ofNat'] <;> omega
+    · split at hb
+      · simp only [List.mem_cons, List.not_mem_nil, or_false] at hb
+        rcases hb with rfl | rfl | rfl <;> simp only [UInt8.toNat_ofNat'] <;> omega
+      · simp only [List.mem_cons, List.not_mem_nil, or_false] at hb
+        rcases hb with rfl | rfl | rfl | rfl <;> simp only [UInt8.toNat_ofNat'] <;> omega
+
+theorem map_escItem_high (bs : Bytes) (h : ∀ b ∈ bs, 128 ≤ b.toNat) : bs.map escItem = bs.map StrItem.raw := by
+  induction bs with
+  | nil => rfl
+  | cons b bs ih =>
+    simp only [List.map_cons, escItem_high (h b (by simp)), ih (fun b' hb' => h b' (by simp [hb']))]
+
+/-- the items `_escapeString` writes for well-formed UTF-8 are RFC 8259 `*char` in the strict sense -/
+theorem strictItems_escItems (cs : List Char) : StrictItems ((cs.flatMap String.utf8EncodeChar).map escItem) := by
+  induction cs with
+  | nil => exact .nil
+  | cons c cs ih =>
+    simp only [List.flatMap_cons, List.map_append]
+    by_cases h : c.val.toNat < 128
+    · rw [utf8Encode_ascii c h]
+      simp only [List.map_cons, List.map_nil, List.singleton_append]
+      have hb : (UInt8.ofNat c.val.toNat).toNat = c.val.toNat := by simp only [UInt8.toNat_ofNat']; omega
+      cases he : escItem (UInt8.ofNat c.val.toNat) with
+      | esc e => exact .esc e ih
+      | u a1 a2 a3 a4 => exact .u a1 a2 a3 a4 ih
+      | raw b =>
+        obtain ⟨rfl, h1, h2, h3⟩ := escItem_raw he
+        have := StrictItems.char c (tl := (cs.flatMap String.utf8EncodeChar).map escItem) (by omega)
+          (by intro e; apply h2; rw [eq_iff_toNat, hb, e]; rfl) (by intro e; apply h3; rw [eq_iff_toNat, hb, e]; rfl) ih
+        rw [utf8Encode_ascii c h] at this
+        simpa using this
+    · have hh : 128 ≤ c.val.toNat := by omega
+      rw [map_escItem_high _ (utf8Encode_high c hh)]
+      exact .char c (by omega) (by omega) (by omega) ih
+
+theorem strictItems_of_valid (s : Bytes) (h : ValidUtf8 s) : StrictItems (s.map escItem) := by
+  obtain ⟨cs, rfl⟩ := h
+  exact strictItems_escItems cs
+
+/-- the strict grammar is inside what J1 covers -/
+theorem strictItems_ok {s : List StrItem} (h : StrictItems s) : ∀ i ∈ s, i.ok := by
+  induction h with
+  | nil => intro i hi; cases hi
+  | esc e _ ih => intro i hi; simp only [List.mem_cons] at hi; rcases hi with rfl | hi; exact trivial; exact ih i hi
+  | u a1 a2 a3 a4 _ ih => intro i hi; simp only [List.mem_cons] at hi; rcases hi with rfl | hi; exact trivial; exact ih i hi
+  | char c h1 h2 h3 _ ih =>
+    intro i hi
+    simp only [List.mem_append, List.mem_map] at hi
+    rcases hi with ⟨b, hb, rfl⟩ | hi
+    · simp only [StrItem.ok]
+      by_cases h : c.val.toNat < 128
+      · rw [utf8Encode_ascii c h] at hb
+        simp only [List.mem_singleton] at hb
+        subst hb
+        have hb : (UInt8.ofNat c.val.toNat).toNat = c.val.toNat := by simp only [UInt8.toNat_ofNat']; omega
+        constructor <;> (intro e; rw [eq_iff_toNat, hb] at e; first | exact h2 e | exact h3 e)
+      · have := utf8Encode_high c (by omega) b hb
+        constructor <;> (intro e; subst e; simp at this)
+    · exact ih i hi
+
+/-! ### `_formatDouble` -/
+
+theorem digits_no_marker (ds : Bytes) (h : ∀ d ∈ ds, isDigit d = true) : hasMarker ds = false := by
+  unfold hasMarker
+  rw [List.any_eq_false]
+  intro d hd
+  have := (isDigit_iff d).mp (h d hd)
+  simp only [Gen.Json.fmtMarkers, List.contains_cons, List.contains_nil, Bool.or_false, Bool.or_eq_true, beq_iff_eq, not_or]
+  omega
+
+theorem hasMarker_append (a b : Bytes) : hasMarker (a ++ b) = (hasMarker a || hasMarker b) := by
+  simp [hasMarker, List.any_append]
+
+/-- the `find_first_of(".eE")` test of `_formatDouble` decides exactly "the token has a fraction or an exponent" -/
+theorem hasMarker_render (n : SNum) (hok : n.ok) : hasMarker n.render = n.isFloat := by
+  have hsign : hasMarker (if n.neg then [0x2D] else []) = false := by cases n.neg <;> decide
+  have hint : hasMarker (natToDec n.int) = false := digits_no_marker _ (natToDec_digits n.int)
+  have hfrac : hasMarker n.renderFrac = n.frac.isSome := by
+    unfold SNum.renderFrac
+    cases hf : n.frac with
+    | none => rfl
+    | some ds => simp [hasMarker, Gen.Json.fmtMarkers]
+  have hexp : hasMarker n.renderExp = n.exp.isSome := by
+    unfold SNum.renderExp
+    cases he : n.exp with
+    | none => rfl
+    | some x =>
+      obtain ⟨u, sg, ds⟩ := x
+      cases u <;> simp [hasMarker, Gen.Json.fmtMarkers]
+  simp only [SNum.render, hasMarker_append, hsign, hint, hfrac, hexp, Bool.false_or, SNum.isFloat]
+
+theorem dblEq_eq {ops : FloatOps} (hl : LibcOk ops) (p : Nat) (d : UInt64)
+    (h : dblEq (ops.strtod (ops.printfG p d)) d = true) : ops.strtod (ops.printfG p d) = d := by
+  simp only [dblEq, Bool.and_eq_true, Bool.or_eq_true, beq_iff_eq] at h
+  rcases h.2 with h' | h'
+  · exact h'
+  · exact hl.zeroSign p d h'.2 h'.1
+
+/-- the precision loop returns the text of one of the precisions tried, and that text reads back as `d` -/
+theorem fmtSearch_spec {ops : FloatOps} (hl : LibcOk ops) (d : UInt64) (hd : isFiniteBits d = true) :
+    ∀ (k p : Nat), Gen.Json.fmtPrecLo ≤ p → p + k = Gen.Json.fmtPrecHi →
+      (∃ q, Gen.Json.fmtPrecLo ≤ q ∧ q ≤ Gen.Json.fmtPrecHi ∧ fmtSearch ops d k p = ops.printfG q d) ∧
+      ops.strtod (fmtSearch ops d k p) = d := by
+  intro k
+  induction k with
+  | zero =>
+    intro p hp hk
+    simp only [Nat.add_zero] at hk
+    subst hk
+    exact ⟨⟨_, hp, Nat.le_refl _, rfl⟩, hl.exactHi d hd⟩
+  | succ k ih =>
+    intro p hp hk
+    simp only [fmtSearch]
+    split
+    · rename_i he
+      exact ⟨⟨p, hp, by omega, rfl⟩, dblEq_eq hl p d he⟩
+    · exact ih (p + 1) (by omega) (by omega)
+
+/-- **`_formatDouble` round-trips** (the repo's own logic, from the four libc facts): for every finite double the output is a JSON
+    number token WITH a fraction or an exponent (so that it re-parses on the floating path) that `strtod` reads back as `d` -/
+theorem formatDouble_roundtrips {ops : FloatOps} (hl : LibcOk ops) (d : UInt64) (hd : isFiniteBits d = true) :
+    ∃ n : SNum, n.ok ∧ n.isFloat = true ∧ n.render = formatDouble ops d ∧ ops.strtod (formatDouble ops d) = d := by
+  obtain ⟨⟨q, hq1, hq2, hs⟩, hrt⟩ := fmtSearch_spec hl d hd (Gen.Json.fmtPrecHi - Gen.Json.fmtPrecLo) Gen.Json.fmtPrecLo
+    (Nat.le_refl _) (by decide)
+  obtain ⟨n, hok, hr⟩ := hl.shape q d hq1 hq2 hd
+  simp only [formatDouble, hd, Bool.not_true, Bool.false_eq_true, ↓reduceIte]
+  rw [hs, ← hr] at hrt ⊢
+  rw [hasMarker_render n hok]
+  cases hf : n.isFloat with
+  | true => exact ⟨n, hok, hf, by simp, by simpa using hrt⟩
+  | false =>
+    simp only [Bool.false_eq_true, ↓reduceIte]
+    have hfe : n.frac = none ∧ n.exp = none := by
+      simpa [SNum.isFloat, Bool.or_eq_false_iff] using hf
+    refine ⟨{ n with frac := some [0x30] }, ?_, ?_, ?_, ?_⟩
+    · refine ⟨?_, hok.2⟩
+      intro ds h
+      simp only [Option.some.injEq] at h
+      subst h
+      exact ⟨by simp, by simp [isDigit]⟩
+    · simp [SNum.isFloat]
+    · simp [SNum.render, SNum.renderFrac, SNum.renderExp, hfe.1, hfe.2, Gen.Json.fmtSuffix, b8]
+    · rw [hl.dotZero n hok hf]; exact hrt
+
 /-! ### white space emitted by the serializer -/
 
 def indW (wi : Ws) (n : Nat) : Ws := (List.replicate n wi).flatten
@@ -134,33 +321,33 @@ section
 variable (ops : FloatOps) (o : Opts) (wi : Ws)
 
 def SerStmt (v : Json) : Prop :=
-  ∀ depth, v.Good ops → ∃ t : SVal, t.render = serialize ops o depth v ∧ t.ok ∧ t.denote ops = v ∧
-    ∀ lim d, v.within lim 0 d → t.fits lim d
+  ∀ depth, v.Good → ∃ t : SVal, t.render = serialize ops o depth v ∧ t.ok ∧ t.denote ops = v ∧
+    (∀ lim d, v.within lim 0 d → t.fits lim d) ∧ (v.utf8 → t.strict)
 
 def SerListStmt (xs : List Json) : Prop :=
-  xs ≠ [] → ∀ depth (wl : Ws), Json.GoodList ops xs →
+  xs ≠ [] → ∀ depth (wl : Ws), Json.GoodList xs →
     ∃ es : SElems, es ≠ .nil ∧ es.render = wl.render ++ serElems ops o depth xs ++ ind o depth ∧ es.ok ∧ es.denote ops = xs ∧
-      es.length = xs.length ∧ ∀ lim d, Json.withinList lim 0 d xs → es.fits lim d
+      es.length = xs.length ∧ (∀ lim d, Json.withinList lim 0 d xs → es.fits lim d) ∧ (Json.utf8List xs → es.strict)
 
 def SerMemStmt (ms : List (Bytes × Json)) : Prop :=
-  ms ≠ [] → ∀ depth (wl : Ws), Json.GoodMembers ops ms →
+  ms ≠ [] → ∀ depth (wl : Ws), Json.GoodMembers ms →
     ∃ tms : SMembers, tms ≠ .nil ∧ tms.render = wl.render ++ joinMembers o depth (serMembers ops o depth ms) ++ ind o depth ∧
       tms.ok ∧ (∀ acc, (acc.map Prod.fst ++ ms.map Prod.fst).Nodup → tms.denote ops acc = acc ++ ms) ∧
-      tms.length = ms.length ∧ ∀ lim d, Json.withinMembers lim 0 d ms → tms.fits lim d
+      tms.length = ms.length ∧ (∀ lim d, Json.withinMembers lim 0 d ms → tms.fits lim d) ∧ (Json.utf8Members ms → tms.strict)
 
 theorem ser_null : SerStmt ops o .null := fun _ _ =>
-  ⟨.null, by simp [SVal.render, serialize], trivial, rfl, fun lim d h => by simpa [Json.within, SVal.fits] using h⟩
+  ⟨.null, by simp [SVal.render, serialize], trivial, rfl, fun lim d h => by simpa [Json.within, SVal.fits] using h, fun _ => by simp [SVal.strict]⟩
 
 theorem ser_bool (b : Bool) : SerStmt ops o (.bool b) := by
   intro _ _
   cases b with
-  | true => exact ⟨.true, by simp [SVal.render, serialize], trivial, rfl, fun lim d h => by simpa [Json.within, SVal.fits] using h⟩
-  | false => exact ⟨.false, by simp [SVal.render, serialize], trivial, rfl, fun lim d h => by simpa [Json.within, SVal.fits] using h⟩
+  | true => exact ⟨.true, by simp [SVal.render, serialize], trivial, rfl, fun lim d h => by simpa [Json.within, SVal.fits] using h, fun _ => by simp [SVal.strict]⟩
+  | false => exact ⟨.false, by simp [SVal.render, serialize], trivial, rfl, fun lim d h => by simpa [Json.within, SVal.fits] using h, fun _ => by simp [SVal.strict]⟩
 
 theorem ser_int (i : Int) : SerStmt ops o (.int i) := by
   intro _ hg
   simp only [Json.Good] at hg
-  refine ⟨.num ⟨decide (i < 0), i.natAbs, none, none⟩, ?_, ?_, ?_, fun lim d h => by simpa [Json.within, SVal.fits] using h⟩
+  refine ⟨.num ⟨decide (i < 0), i.natAbs, none, none⟩, ?_, ?_, ?_, fun lim d h => by simpa [Json.within, SVal.fits] using h, fun _ => by simp [SVal.strict]⟩
   · simp only [SVal.render, SNum.render, SNum.renderFrac, SNum.renderExp, List.append_nil, serialize, intToDec]
     by_cases h : i < 0 <;> simp [h]
   · simp [SVal.ok, SNum.ok]
@@ -169,19 +356,23 @@ theorem ser_int (i : Int) : SerStmt ops o (.int i) := by
       by_cases h : i < 0 <;> simp [h] <;> omega
     rw [e, if_pos hg]
 
-theorem ser_dbl (d : UInt64) : SerStmt ops o (.dbl d) := by
+theorem ser_dbl (hl : LibcOk ops) (d : UInt64) : SerStmt ops o (.dbl d) := by
   intro _ hg
   simp only [Json.Good] at hg
-  obtain ⟨n, hok, hf, hr, hs⟩ := hg
-  refine ⟨.num n, by simp [SVal.render, serialize, hr], hok, ?_, fun lim d h => by simpa [Json.within, SVal.fits] using h⟩
+  obtain ⟨n, hok, hf, hr, hs⟩ := formatDouble_roundtrips hl d hg
+  refine ⟨.num n, by simp [SVal.render, serialize, hr], hok, ?_, fun lim d h => by simpa [Json.within, SVal.fits] using h, fun _ => by simp [SVal.strict]⟩
   simp [SVal.denote, SNum.denote, hf, hr, hs]
 
 theorem ser_str (s : Bytes) : SerStmt ops o (.str s) := by
   intro _ _
   obtain ⟨-, h2, h3⟩ := escItems_spec s
-  refine ⟨.str (s.map escItem), by simp [SVal.render, serialize, renderString_escItems], h2, by simp [SVal.denote, h3], ?_⟩
-  intro lim d h
-  simpa [Json.within, SVal.fits, h3] using h
+  refine ⟨.str (s.map escItem), by simp [SVal.render, serialize, renderString_escItems], h2, by simp [SVal.denote, h3], ?_, ?_⟩
+  · intro lim d h
+    simpa [Json.within, SVal.fits, h3] using h
+  · intro hu
+    simp only [Json.utf8] at hu
+    simp only [SVal.strict]
+    exact strictItems_of_valid s hu
 
 variable (hind : wi.render = o.indent)
 include hind
@@ -190,19 +381,23 @@ theorem ser_list_cons (x : Json) (xs : List Json) (hx : SerStmt ops o x) (hxs : 
     SerListStmt ops o (x :: xs) := by
   intro _ depth wl hg
   simp only [Json.GoodList] at hg
-  obtain ⟨t, htr, htok, htd, htf⟩ := hx (depth + 1) hg.1
+  obtain ⟨t, htr, htok, htd, htf, hts⟩ := hx (depth + 1) hg.1
   cases xs with
   | nil =>
-    refine ⟨.cons (wl ++ indWo o wi (depth + 1)) t (nlW o ++ indWo o wi depth) .nil, by simp, ?_, ?_, ?_, rfl, ?_⟩
+    refine ⟨.cons (wl ++ indWo o wi (depth + 1)) t (nlW o ++ indWo o wi depth) .nil, by simp, ?_, ?_, ?_, rfl, ?_, ?_⟩
     · simp [SElems.render, ws_render_append, indWo_render o wi hind, nlW_render, htr, serElems, List.append_assoc]
     · simp [SElems.ok, htok]
     · simp [SElems.denote, htd]
     · intro lim d h
       simp only [Json.withinList] at h
       simp [SElems.fits, htf lim d h.1]
+    · intro hu
+      simp only [Json.utf8List] at hu
+      simp only [SElems.strict]
+      exact ⟨hts hu.1, trivial⟩
   | cons y ys =>
-    obtain ⟨tl, hne, hr, hok, hd, hl, hf⟩ := hxs (by simp) depth (nlW o) hg.2
-    refine ⟨.cons (wl ++ indWo o wi (depth + 1)) t [] tl, by simp, ?_, ?_, ?_, ?_, ?_⟩
+    obtain ⟨tl, hne, hr, hok, hd, hl, hf, hs⟩ := hxs (by simp) depth (nlW o) hg.2
+    refine ⟨.cons (wl ++ indWo o wi (depth + 1)) t [] tl, by simp, ?_, ?_, ?_, ?_, ?_, ?_⟩
     · rw [SElems.render_cons_ne _ _ _ _ hne, hr]
       simp [ws_render_append, indWo_render o wi hind, nlW_render, htr, serElems, List.append_assoc, ws_render_nil]
     · simp [SElems.ok, htok, hok]
@@ -212,34 +407,43 @@ theorem ser_list_cons (x : Json) (xs : List Json) (hx : SerStmt ops o x) (hxs : 
       simp only [Json.withinList] at h
       simp only [SElems.fits]
       exact ⟨htf lim d h.1, hf lim d h.2⟩
+    · intro hu
+      simp only [Json.utf8List] at hu
+      simp only [SElems.strict]
+      exact ⟨hts hu.1, hs hu.2⟩
 
 theorem ser_arr (xs : List Json) (hxs : SerListStmt ops o xs) : SerStmt ops o (.arr xs) := by
   intro depth hg
   simp only [Json.Good] at hg
   cases xs with
   | nil =>
-    refine ⟨.arr [] .nil, by simp [SVal.render, SElems.render, serialize, ws_render_nil], trivial, by simp [SVal.denote, SElems.denote], ?_⟩
+    refine ⟨.arr [] .nil, by simp [SVal.render, SElems.render, serialize, ws_render_nil], trivial, by simp [SVal.denote, SElems.denote], ?_,
+      fun _ => by simp [SVal.strict, SElems.strict]⟩
     intro lim d h
     simp only [Json.within] at h
     simp [SVal.fits, SElems.length, SElems.fits, h.1]
   | cons x xs =>
-    obtain ⟨es, hne, hr, hok, hd, hl, hf⟩ := hxs (by simp) depth (nlW o) hg
-    refine ⟨.arr [] es, ?_, hok, by simp [SVal.denote, hd], ?_⟩
+    obtain ⟨es, hne, hr, hok, hd, hl, hf, hs⟩ := hxs (by simp) depth (nlW o) hg
+    refine ⟨.arr [] es, ?_, hok, by simp [SVal.denote, hd], ?_, ?_⟩
     · simp [SVal.render, hr, serialize, ws_render_nil, nlW_render, List.append_assoc]
     · intro lim d h
       simp only [Json.within] at h
       simp only [SVal.fits]
       exact ⟨h.1, by rw [hl]; exact h.2.1, hf lim (d + 1) h.2.2⟩
+    · intro hu
+      simp only [Json.utf8] at hu
+      simp only [SVal.strict]
+      exact hs hu
 
 theorem ser_mem_cons (k : Bytes) (v : Json) (ms : List (Bytes × Json)) (hv : SerStmt ops o v) (hms : SerMemStmt ops o ms) :
     SerMemStmt ops o ((k, v) :: ms) := by
   intro _ depth wl hg
   simp only [Json.GoodMembers] at hg
-  obtain ⟨t, htr, htok, htd, htf⟩ := hv (depth + 1) hg.1
+  obtain ⟨t, htr, htok, htd, htf, hts⟩ := hv (depth + 1) hg.1
   obtain ⟨-, hk2, hk3⟩ := escItems_spec k
   cases ms with
   | nil =>
-    refine ⟨.cons (wl ++ indWo o wi (depth + 1)) (k.map escItem) [] (spW o) t (nlW o ++ indWo o wi depth) .nil, by simp, ?_, ?_, ?_, rfl, ?_⟩
+    refine ⟨.cons (wl ++ indWo o wi (depth + 1)) (k.map escItem) [] (spW o) t (nlW o ++ indWo o wi depth) .nil, by simp, ?_, ?_, ?_, rfl, ?_, ?_⟩
     · simp [SMembers.render, ws_render_append, indWo_render o wi hind, nlW_render, spW_render, htr, serMembers, joinMembers,
         renderString_escItems, List.append_assoc, ws_render_nil]
     · simp only [SMembers.ok]; exact ⟨hk2, htok, trivial⟩
@@ -254,9 +458,13 @@ theorem ser_mem_cons (k : Bytes) (v : Json) (ms : List (Bytes × Json)) (hv : Se
       simp only [Json.withinMembers] at h
       simp only [SMembers.fits, hk3]
       exact ⟨by simpa using h.1, htf lim d h.2.1, trivial⟩
+    · intro hu
+      simp only [Json.utf8Members] at hu
+      simp only [SMembers.strict]
+      exact ⟨strictItems_of_valid k hu.1, hts hu.2.1, trivial⟩
   | cons m ms' =>
-    obtain ⟨tl, hne, hr, hok, hd, hl, hf⟩ := hms (by simp) depth (nlW o) hg.2
-    refine ⟨.cons (wl ++ indWo o wi (depth + 1)) (k.map escItem) [] (spW o) t [] tl, by simp, ?_, ?_, ?_, ?_, ?_⟩
+    obtain ⟨tl, hne, hr, hok, hd, hl, hf, hs⟩ := hms (by simp) depth (nlW o) hg.2
+    refine ⟨.cons (wl ++ indWo o wi (depth + 1)) (k.map escItem) [] (spW o) t [] tl, by simp, ?_, ?_, ?_, ?_, ?_, ?_⟩
     · rw [SMembers.render_cons_ne _ _ _ _ _ _ _ hne, hr]
       obtain ⟨k', v'⟩ := m
       simp [ws_render_append, indWo_render o wi hind, nlW_render, spW_render, htr, serMembers, joinMembers,
@@ -277,6 +485,10 @@ theorem ser_mem_cons (k : Bytes) (v : Json) (ms : List (Bytes × Json)) (hv : Se
       simp only [Json.withinMembers] at h
       simp only [SMembers.fits, hk3]
       exact ⟨by simpa using h.1, htf lim d h.2.1, hf lim d h.2.2⟩
+    · intro hu
+      simp only [Json.utf8Members] at hu
+      simp only [SMembers.strict]
+      exact ⟨strictItems_of_valid k hu.1, hts hu.2.1, hs hu.2.2⟩
 
 theorem ser_obj (hns : o.sortKeys = false) (ms : List (Bytes × Json)) (hms : SerMemStmt ops o ms) : SerStmt ops o (.obj ms) := by
   intro depth hg
@@ -284,13 +496,13 @@ theorem ser_obj (hns : o.sortKeys = false) (ms : List (Bytes × Json)) (hms : Se
   cases ms with
   | nil =>
     refine ⟨.obj [] .nil, by simp [SVal.render, SMembers.render, serialize, ws_render_nil], trivial,
-      by simp [SVal.denote, SMembers.denote], ?_⟩
+      by simp [SVal.denote, SMembers.denote], ?_, fun _ => by simp [SVal.strict, SMembers.strict]⟩
     intro lim d h
     simp only [Json.within] at h
     simp [SVal.fits, SMembers.length, SMembers.fits, h.1]
   | cons m ms' =>
-    obtain ⟨tms, hne, hr, hok, hd, hl, hf⟩ := hms (by simp) depth (nlW o) hg.2
-    refine ⟨.obj [] tms, ?_, hok, ?_, ?_⟩
+    obtain ⟨tms, hne, hr, hok, hd, hl, hf, hs⟩ := hms (by simp) depth (nlW o) hg.2
+    refine ⟨.obj [] tms, ?_, hok, ?_, ?_, ?_⟩
     · simp [SVal.render, hr, serialize, hns, ws_render_nil, nlW_render, List.append_assoc]
     · simp only [SVal.denote]
       rw [hd [] (by simpa using hg.1)]
@@ -299,12 +511,16 @@ theorem ser_obj (hns : o.sortKeys = false) (ms : List (Bytes × Json)) (hms : Se
       simp only [Json.within] at h
       simp only [SVal.fits]
       exact ⟨h.1, by rw [hl]; exact h.2.1, hf lim (d + 1) h.2.2⟩
+    · intro hu
+      simp only [Json.utf8] at hu
+      simp only [SVal.strict]
+      exact hs hu
 
 /-- **J3** for the unsorted serializer: the output is the rendering of a well-formed syntax tree denoting the value -/
-theorem serialize_tree (hns : o.sortKeys = false) (v : Json) : SerStmt ops o v :=
+theorem serialize_tree (hl : LibcOk ops) (hns : o.sortKeys = false) (v : Json) : SerStmt ops o v :=
   Json.rec (motive_1 := SerStmt ops o) (motive_2 := SerListStmt ops o) (motive_3 := SerMemStmt ops o)
     (motive_4 := fun kv => SerStmt ops o kv.2)
-    (ser_null ops o) (ser_bool ops o) (ser_int ops o) (ser_dbl ops o) (ser_str ops o)
+    (ser_null ops o) (ser_bool ops o) (ser_int ops o) (ser_dbl ops o hl) (ser_str ops o)
     (fun xs ih => ser_arr ops o wi hind xs ih) (fun ms ih => ser_obj ops o wi hind hns ms ih)
     (fun h => absurd rfl h) (fun x xs ihx ihxs => ser_list_cons ops o wi hind x xs ihx ihxs)
     (fun h => absurd rfl h) (fun kv ms ihkv ihms => by obtain ⟨k, v⟩ := kv; exact ser_mem_cons ops o wi hind k v ms ihkv ihms)
@@ -313,11 +529,66 @@ theorem serialize_tree (hns : o.sortKeys = false) (v : Json) : SerStmt ops o v :
 end
 
 /-- **J2** (unsorted): parsing the serialized text of a good value within the limits gives the value back -/
-theorem parse_serialize (ops : FloatOps) (lim : Limits) (o : Opts) (wi : Ws) (hind : wi.render = o.indent)
-    (hns : o.sortKeys = false) (v : Json) (hg : v.Good ops) (hw : v.within lim 0 0) :
+theorem parse_serialize (ops : FloatOps) (hl : LibcOk ops) (lim : Limits) (o : Opts) (wi : Ws) (hind : wi.render = o.indent)
+    (hns : o.sortKeys = false) (v : Json) (hg : v.Good) (hw : v.within lim 0 0) :
     parse ops lim (serialize ops o 0 v) = .ok v := by
-  obtain ⟨t, hr, hok, hd, hf⟩ := serialize_tree ops o wi hind hns v 0 hg
+  obtain ⟨t, hr, hok, hd, hf, -⟩ := serialize_tree ops o wi hind hl hns v 0 hg
   have := parse_render ops lim ⟨[], t, []⟩ hok (hf lim 0 hw)
   simpa [SText.render, SText.denote, ws_render_nil, hr, hd] using this
+
+/-! ### the libc hypotheses are satisfiable (non-vacuity of `LibcOk`) -/
+
+/-- leading ASCII digits -/
+def leadDigits : Bytes → Bytes
+  | [] => []
+  | b :: r => if isDigit b then b :: leadDigits r else []
+
+theorem leadDigits_append (ds x : Bytes) (hd : ∀ d ∈ ds, isDigit d = true) (hx : NoDigitHead x) : leadDigits (ds ++ x) = ds := by
+  induction ds with
+  | nil =>
+    cases x with
+    | nil => rfl
+    | cons b r => simp [leadDigits, hx b r rfl]
+  | cons d ds ih =>
+    simp only [List.cons_append, leadDigits, hd d (by simp), ↓reduceIte, ih (fun d' hd' => hd d' (by simp [hd']))]
+
+/-- a toy libc: a double is printed as the decimal numeral of its bit pattern followed by `e0`, and read back from the leading digits -/
+def toyOps : FloatOps :=
+  { strtod := fun tok => UInt64.ofNat (decVal (leadDigits tok)),
+    printfG := fun _ d => natToDec d.toNat ++ [0x65, 0x30] }
+
+theorem toy_read (d : UInt64) (p : Nat) : toyOps.strtod (toyOps.printfG p d) = d := by
+  simp only [toyOps]
+  rw [leadDigits_append _ _ (natToDec_digits _) (by intro b r e; simp only [List.cons.injEq] at e; obtain ⟨rfl, -⟩ := e; rfl),
+    decVal_natToDec]
+  simp
+
+theorem libcOk_toy : LibcOk toyOps where
+  shape := by
+    intro p d _ _ _
+    refine ⟨⟨false, d.toNat, none, some (false, none, [0x30])⟩, ?_, ?_⟩
+    · refine ⟨by simp, ?_⟩
+      intro u sg ds h
+      simp only [Option.some.injEq, Prod.mk.injEq] at h
+      obtain ⟨-, -, rfl⟩ := h
+      exact ⟨by simp, by simp [isDigit]⟩
+    · simp [SNum.render, SNum.renderFrac, SNum.renderExp, toyOps]
+  exactHi := fun d _ => toy_read d _
+  zeroSign := fun p d _ _ => toy_read d p
+  dotZero := by
+    intro n hok hf
+    have hfe : n.frac = none ∧ n.exp = none := by simpa [SNum.isFloat, Bool.or_eq_false_iff] using hf
+    have hr : n.render = (if n.neg then [0x2D] else []) ++ natToDec n.int := by
+      simp [SNum.render, SNum.renderFrac, SNum.renderExp, hfe.1, hfe.2]
+    rw [hr]
+    simp only [toyOps, Gen.Json.fmtSuffix, List.map_cons, List.map_nil]
+    cases n.neg with
+    | true => simp [leadDigits, isDigit]
+    | false =>
+      simp only [Bool.false_eq_true, ↓reduceIte, List.nil_append]
+      rw [leadDigits_append _ _ (natToDec_digits _) (by intro b r e; simp only [List.cons.injEq] at e; obtain ⟨rfl, -⟩ := e; rfl)]
+      have := leadDigits_append (natToDec n.int) [] (natToDec_digits _) (by intro b r e; cases e)
+      rw [List.append_nil] at this
+      rw [this]
 
 end Iora.Json.Spec
